@@ -58,7 +58,8 @@ SrvOfIdx(i) == LET d == Decode(i, 1) IN [issuer |-> d[6], san |-> d[7], host |->
 InLattice(i) == CfgOfIdx(i) \in Cfg /\ SrvOfIdx(i) \in Srv
 
 \* the factor table and the lattice size, printed once
-ASSUME PrintT(<<"LATTICE", ToJson([factors |-> Factors, size |-> LatticeSize])>>)
+\* (plain strings: TLC's pretty-printer wraps tuples wider than 80 columns, never a string)
+ASSUME PrintT("LATTICE|" \o ToJson([factors |-> Factors, size |-> LatticeSize]))
 \* the level sequences enumerate exactly the level sets of the specification
 ASSUME /\ Range(Factors[1].levels) = ReqsL /\ Range(Factors[2].levels) = AHL /\ Range(Factors[3].levels) = FPL
        /\ Range(Factors[4].levels) = SHL /\ Range(Factors[5].levels) = CtxL /\ Range(Factors[6].levels) = IssuerL
@@ -100,7 +101,7 @@ PointRec(s) ==
      model |-> [outcome |-> OutcomeClass(s), obs |-> ObsOf(s), sni |-> s.sni, by |-> s.by, pv |-> s.pVerified]]
 
 \* ACTION_CONSTRAINT: every lattice point is printed exactly once, when its run concludes
-Emit == (st'.pc = "done") => PrintT(<<"PT", ToJson(PointRec(st))>>)
+Emit == (st'.pc = "done") => PrintT("PT|" \o ToJson(PointRec(st)))
 
 \* the index really is the inverse of Decode on every point the model visits
 IndexRoundTrip == st.pc = "new" => (CfgOfIdx(IdxOf(st.cfg, st.srv)) = st.cfg /\ SrvOfIdx(IdxOf(st.cfg, st.srv)) = st.srv)
